@@ -39,6 +39,11 @@ sys.setrecursionlimit(20000)
 # -- interpreter-level values ---------------------------------------------------------------------
 
 
+class UnwindCut(RuntimeError):
+    """raised (symbolically) on paths that need more loop iterations than the unwinding bound;
+    harnesses exclude these paths from their verdicts and report the bound"""
+
+
 class ModuleVal(object):
     def __init__(self, name, file, package):
         self.name = name
@@ -547,10 +552,7 @@ class Interp(object):
             if it >= self.while_bound:
                 # unwinding cut: paths needing more iterations are cut (recorded, reported)
                 self.unwind_cuts.append((st.lineno, vc.c_find(ipc)))
-                lp.brk = vc.c_or(lp.brk, ipc)
-                self._add_dead(fr, ipc)
-                self.cut_conds = getattr(self, "cut_conds", [])
-                self.cut_conds.append(vc.c_find(ipc))
+                self.raise_exc(ipc, UnwindCut("loop at line %d needs more than %d iterations" % (st.lineno, self.while_bound)))
                 break
             self.exec_block(st.body, fr, vc.c_find(ipc))
             it += 1
